@@ -322,6 +322,11 @@ class Interp:
             v = self.value(s.value, env)
             for t in s.targets:
                 self.bind(t, v, env, s)
+                if isinstance(t, ast.Name) and isinstance(s.value, ast.Tuple):
+                    # a tuple of format arguments held in a local: remembered with the values its elements have here
+                    env["\0tuple:" + t.id] = [(self.value(a, env), src(a)) for a in s.value.elts]
+                elif isinstance(t, ast.Name):
+                    env.pop("\0tuple:" + t.id, None)
             return None
         if isinstance(s, ast.AugAssign):
             v = self.value(s.value, env)
@@ -652,7 +657,10 @@ class Interp:
 
     def fmt(self, l, right, env):
         args = list(right.elts) if isinstance(right, ast.Tuple) else [right]
-        vals = [(self.value(a, env), src(a)) for a in args]
+        if isinstance(right, ast.Name) and ("\0tuple:" + right.id) in env:
+            vals = list(env["\0tuple:" + right.id])
+        else:
+            vals = [(self.value(a, env), src(a)) for a in args]
         out = []
         i = 0
         for p in l.parts:
